@@ -235,6 +235,20 @@ func (w *World) Step(bo *BlockOp) bool {
 	if w.Viol != nil || w.InfraErr != nil || w.Node == nil || w.Node.Dead || w.Node.Stopped {
 		return false
 	}
+	if bo.Restart && w.Sc.Params["main_restart"] == 1 && w.Prev != nil && int64(w.Prev.Height) >= w.Sc.InitialH {
+		// the node under test itself is stopped cleanly and started again over its disk (properties whose
+		// oracle is a model of the history, e.g. nonces: the model does not restart)
+		w.Node.Close()
+		w.Disk = w.Disk.Reopen()
+		n, cerr := OpenNode(w.Disk, w.Sc.Node)
+		if cerr != nil {
+			w.Report("C07", "no-panic", "restart:"+cerr.Call+"@"+cerr.Site, cerr.Error(), int64(w.Prev.Height))
+			return false
+		}
+		w.Node = n
+		w.Fault("restart")
+		w.Probe("main_node_restarted")
+	}
 	w.TM.Advance(bo.Dt)
 	w.Stats.SimSeconds += bo.Dt
 	h := w.TM.Next
